@@ -409,6 +409,25 @@ def mutate_malformed(rnd, d, kind):
         # the diagnostic identifies every provider on the cycle by its first provided type: any type of b's first group counts
         d["expect"] = dict(err="cycle", types=[], types_any=sorted({x for g in d["provs"][b]["provides"] for x in g} | {t}))
         return d
+    if kind == "cycle_self_bind":
+        # a cycle of length one through an interface: Bind[I](Provide(f)) where f itself requires I (a decorator bound to
+        # the interface it wraps)
+        cands = [i for i in fnidx if d["provs"][i].get("node") is not None and d["provs"][i]["provides"][0][0].startswith("*" + P + "T")]
+        if not cands:
+            return None
+        withb = [i for i in cands if d["provs"][i].get("bind")]
+        a = rnd.choice(withb or cands)
+        pa = d["provs"][a]
+        if not pa.get("bind"):
+            iface = "%sIF%d" % (P, pa["node"])
+            pa["bind"] = [iface]
+            pa["provides"][0] = pa["provides"][0] + [iface]
+        iface = rnd.choice(pa["bind"])
+        pa["requires"] = pa["requires"] + [iface]
+        pa["variadic"] = False
+        d["kind"] = "cycle"
+        d["expect"] = dict(err="cycle", types=[], types_any=sorted({x for g in pa["provides"] for x in g}))
+        return d
     if kind in ("cycle_mv", "dup_mv"):
         # the defect goes through the SECOND result of a Bind-wrapped two-result provider (gen_decl option bindmv)
         bm = [i for i in fnidx if d["provs"][i].get("bind") and len(d["provs"][i]["provides"]) > 1]
